@@ -237,13 +237,21 @@ def checkAttributes (env : Env) (d : ClassDef) (n : Node) (ps : List (Node × No
     mapping.findSome? (fun e =>
       match e.1 with
       | .scalar (.str k) =>
-        if !d.argNames.contains k && !d.takesExtra then some (errAt (firstKeyMark ps k n.mark) [k])
+        -- `self` is in `argspec.args`, so a key of that name passes this check (and fails later)
+        if !d.argNames.contains k && k != "self" && !d.takesExtra then
+          some (errAt (firstKeyMark ps k n.mark) [k])
         else
           match d.params.find? (fun p => p.name == k) with
           | some p =>
             if p.annotated && !typeMatches env e.2 p.ty then some (errAt (firstValueMark ps k n.mark) [k])
             else none
-          | none => none
+          | none =>
+            -- a key spelt `_yatiml_extra` is checked against that parameter's annotation
+            if k == "_yatiml_extra" && d.takesExtra then
+              (match d.extraTy with
+               | some T => if !typeMatches env e.2 T then some (errAt (firstValueMark ps k n.mark) [k]) else none
+               | none => none)
+            else none
       | _ => some (errAt n.mark))
 
 def consItems (cons : Node → ConsRes) : List Node → List Call → Except (LoadErr × List Call) (List PyVal × List Call)
@@ -314,7 +322,9 @@ def construct (env : Env) (tbl : List Entry) : Nat → Node → ConsRes
                   | none =>
                     let kw := kwargsOf d mapping
                     let call : Call := ⟨d.name, kw⟩
-                    if d.initRaises (scalarArgs kw) then .error (errAt m, calls ++ [call])
+                    -- `__init__(self=…)`: TypeError before the body runs, reported as RecognitionError
+                    if (dictGet mapping "self").isSome then .error (errAt m, calls)
+                    else if d.initRaises (scalarArgs kw) then .error (errAt m, calls ++ [call])
                     else .ok ⟨.obj d.name (PyKVs.ofList kw), calls ++ [call]⟩
           | _ => .error (errAt n.mark, [])))
     | none =>
